@@ -276,6 +276,10 @@ impl<'a> JsonValueTrait for LazyValue<'a> {
     }
 
     fn as_raw_number(&self) -> Option<RawNumber> {
+        // `RawNumber` can also be deserialized from a JSON string
+        if !self.is_number() {
+            return None;
+        }
         from_str(self.as_raw_str()).ok()
     }
 
